@@ -42,7 +42,44 @@ def cases(tier, seed):
             if i % 5 == 0 and (2, (4, 4, -1)) not in settings:
                 settings[0] = (2, (4, 4, -1))
         out.append({'id': '%s:%d' % (geom, i), 'src': src, 'settings': [[r, list(b)] for r, b in settings],
+                    'detection': ['heuristic', 'strip', 'thorough', 'exhaustive'][(i // 6) % 4] if geom in ('3d', '2d') else 'heuristic',
                     'where': ['first', 'last', 'partial', 'random'][i % 4], 'cost': 2})
+    # alignment family: every pattern of {axis is / is not a multiple of the resolved blockshape} relative to the first setting,
+    # every detection mode, every route (the padded buffer equals the real extent on the aligned axes)
+    m = 0
+    for rep in range(1 if tier == 'quick' else 4):
+        for pat in range(8):
+            for geom in ('3d', 'numpy', '2d', 'irregular'):
+                if geom == '2d':
+                    r, b = set2[(pat + m) % len(set2)]
+                    b = conv.resolve_bs(r, b)
+                    k = 1 + (m % 2)
+                    nT = b[1] * k if pat & 2 else b[1] * (k - 1) + 1 + rng.randrange(b[1] - 1)
+                    nT = max(nT, 2)
+                    nZ = b[2] if pat & 4 else rng.choice([3, b[2] - 1, b[2] + 1])
+                    src = conv.src_desc(rng, '2d', (nT, nZ), how2d=['nonumbers', 'single-inline', 'single-crossline'][m % 3],
+                                        hdr={'seed': 1, 'nfields': 1, 'inside': True}, valkind='smooth')
+                    settings = [(r, b)] + rng.sample(set2, 2)
+                else:
+                    r, b = set3[(pat + m) % len(set3)]
+                    b = conv.resolve_bs(r, b)
+                    nI = b[0] * (1 + m % 2) if pat & 1 else b[0] * (m % 2) + 1 + rng.randrange(b[0] - 1)
+                    nX = b[1] if pat & 2 else b[1] * (m % 2) + 1 + rng.randrange(b[1] - 1)
+                    nZ = b[2] if pat & 4 else rng.choice([3, b[2] - 1, b[2] + 1])
+                    nI, nX = max(nI, 2), max(nX, 2)
+                    while nI * nX * nZ > 300000 and nI > 2:
+                        nI = max(2, nI - b[0])
+                    kw = {}
+                    if geom == 'irregular':
+                        nI, nX = max(nI, 3), max(nX, 3)
+                        kw = {'holes': conv.pick_holes(rng, nI, nX), 'il': [rng.choice([1, 5]), rng.choice([1, 2])], 'xl': [rng.choice([1, 20]), rng.choice([1, 3])]}
+                    src = conv.src_desc(rng, geom, (nI, nX, nZ), hdr={'seed': 1, 'nfields': 1, 'inside': True}, valkind='smooth', **kw)
+                    settings = [(r, b)] + rng.sample(set3, 2)
+                out.append({'id': 'aligned:%s:%d:%d' % (geom, pat, rep), 'src': src, 'settings': [[r_, list(b_)] for r_, b_ in settings],
+                            'detection': ['heuristic', 'strip', 'thorough', 'exhaustive'][m % 4] if geom in ('3d', '2d') else 'heuristic',
+                            'pattern': pat, 'window': geom == '3d' and m % 3 == 0, 'cli': geom == '3d' and m % 4 == 1,
+                            'where': ['first', 'last', 'partial', 'random'][m % 4], 'cost': 3})
+                m += 1
     return out
 
 
@@ -63,12 +100,16 @@ def run_case(case, ctx):
         got = {}
         for rate, bs in case['settings']:
             routes = ['numpy'] if geom == 'numpy' else (['segyio', 'iops'] if geom == '3d' else ['segyio'])
+            if case.get('cli') and rate >= 1:
+                routes = routes + ['cli']
             for route in routes:
                 out = sc.file('o-%s-%s-%s.sgz' % (tag, rate, route))
                 if route == 'numpy':
                     conv.convert_numpy(src['data'], out, rate, bs, ilines=src['ilines'], xlines=src['xlines'], samples=src['samples'])
+                elif route == 'cli':
+                    conv.convert_cli_inproc(src['path'], out, rate, bs)
                 else:
-                    conv.convert_segy(src['path'], out, rate, bs, reduce_iops=route == 'iops')
+                    conv.convert_segy(src['path'], out, rate, bs, reduce_iops=route == 'iops', detection=case.get('detection', 'heuristic'))
                 n += 1
                 with SgzReader(out) as r:
                     h = r.get_source_data_hash()
@@ -95,7 +136,27 @@ def run_case(case, ctx):
         T = src['traces']
     want = sha(T)
     got = convert_all(src, 'a')
-    strata = {'geom:' + geom, 'where:' + case['where']}
+    strata = {'geom:' + geom, 'where:' + case['where'], 'detection:' + case.get('detection', 'heuristic')}
+    if 'pattern' in case:
+        strata.add('aligned-axes:%s:%d' % ('2d' if geom == '2d' else '3d', case['pattern']))
+    if case.get('window') and geom == '3d' and min(src['data'].shape[:2]) >= 3:
+        nI, nX, nZ = src['data'].shape
+        a = rng.randrange(0, nI - 2)
+        b = rng.randrange(a + 2, nI + 1)
+        c = rng.randrange(0, nX - 2)
+        d = rng.randrange(c + 2, nX + 1)
+        wantw = sha(src['data'][a:b, c:d].reshape(-1, nZ))
+        rate, bs = case['settings'][0]
+        for iops in (False, True):
+            out = sc.file('w-%s.sgz' % iops)
+            conv.convert_segy(src['path'], out, rate, bs, reduce_iops=iops, detection=case.get('detection', 'heuristic'), window=(a, b, c, d))
+            n += 1
+            with SgzReader(out) as r:
+                h = r.get_source_data_hash()
+            if h != wantw:
+                bad.append({'sig': '3d:window:hash-differs-from-sha1-of-windowed-samples',
+                            'detail': 'window %s of %s, reduce_iops=%s: stored %s, sha1 of the windowed traces %s' % ((a, b, c, d), (nI, nX, nZ), iops, h, wantw)})
+        strata.add('windowed')
     vals = set(got.values())
     if len(vals) > 1:
         bad.append({'sig': '%s:hash-depends-on-setting' % geom, 'detail': 'same source, hashes %s' % {str(k): v[:10] for k, v in got.items()}})
@@ -147,7 +208,10 @@ def run_case(case, ctx):
 
 def finalize(tier, cases, results, counters, strata):
     reasons = []
-    for s in ['geom:3d', 'geom:2d', 'geom:irregular', 'geom:numpy', 'where:first', 'where:last', 'where:partial', 'where:random']:
+    need = ['geom:3d', 'geom:2d', 'geom:irregular', 'geom:numpy', 'where:first', 'where:last', 'where:partial', 'where:random', 'windowed']
+    need += ['detection:' + d for d in ('heuristic', 'strip', 'thorough', 'exhaustive')]
+    need += ['aligned-axes:%s:%d' % (g, p) for g in ('3d', '2d') for p in range(8)]
+    for s in need:
         if s not in strata:
             reasons.append('required stratum not hit: ' + s)
     if counters.get('perturbations', 0) == 0:
